@@ -20,5 +20,5 @@ CLAIMS["C13"] = dict(engine="seq",
        "and disabled loggers. On the deferred exporter a string / array value is attributed to the listed known finding (the record keeps views of caller storage) only if it is a view of "
        "exactly the storage the caller passed for the last value of that very field (same addresses and lengths, and while readable the content the caller put there afterwards); a view of "
        "any other caller storage is reported as a wrong / overwritten value like on the simple exporter.",
-  note=SEQ_NOTE + " Several threads with different active spans are exercised by the separate Engine-A harness conc_c13, not by this one; the real BatchLogRecordProcessor thread is not used. "
+  note=SEQ_NOTE + " Several threads with different active spans are exercised by the separate Engine-A harness conc_c13, not by this one; the real BatchLogRecordProcessor is driven by the third harness batch_c13 (the C01 batch harness under the scheduler, log processor only): its exactly-once / nothing-lost-while-there-is-room / per-producer-order predicates are reported as C13:batch:* - record contents are opaque tagged recordables there. "
        "The observed timestamp, the event.domain / event.name attributes added by the EventLogger and the order in which EventLogger::EmitEvent(args...) applies conflicting arguments are not decided.")
